@@ -48,3 +48,56 @@ Definition run_checksum_op (o : list Z) : list Z :=
   | _ => [-1]
   end.
 Definition run_checksum (ops : list (list Z)) : list (list Z) := map run_checksum_op ops.
+
+(* ---- C17: native filestore reference model.
+   paths are length-prefixed: [n; c1; ...; cn].
+   op  = 0 p | 1 p | 2 a b | 3 a b | 4 p | 5 p rec | 6 p | 7 p off n bytes | 8 p off len | 9 p | 10 p | 11 p
+   obs = [kind; ...] ++ tree snapshot;  kind 0 code c | 1 data n bytes | 2 int | 3 bool | 4 none | 5 oserr e *)
+From CFDP Require Import Fs FsSpec.
+Definition take_path (l : list Z) : option (path * list Z) :=
+  match l with
+  | n :: r => if (0 <=? n) && (n <=? zlen r) then Some (ztake n r, zdrop n r) else None
+  | [] => None
+  end.
+Definition fop_decode (l : list Z) : option fop :=
+  match l with
+  | tag :: r =>
+    match take_path r with
+    | None => None
+    | Some (p, r1) =>
+      if tag =? 0 then Some (FCreate p) else if tag =? 1 then Some (FDelete p)
+      else if tag =? 4 then Some (FMkdir p) else if tag =? 6 then Some (FTruncate p)
+      else if tag =? 9 then Some (FSize p) else if tag =? 10 then Some (FExists p)
+      else if tag =? 11 then Some (FIsDir p)
+      else if tag =? 5 then match r1 with [b] => Some (FRmdir p (negb (b =? 0))) | _ => None end
+      else if tag =? 8 then match r1 with [off; len] => Some (FRead p off len) | _ => None end
+      else if tag =? 7 then match r1 with off :: n :: d => Some (FWrite p (ztake n d) off) | _ => None end
+      else if (tag =? 2) || (tag =? 3) then
+        match take_path r1 with
+        | Some (q, []) => Some (if tag =? 2 then FRename p q else FReplace p q)
+        | _ => None
+        end
+      else None
+    end
+  | [] => None
+  end.
+Definition oserr_code (e : oserr) : Z :=
+  match e with FileNotFoundError => 1 | IsADirectoryError => 2 | NotADirectoryError => 3 | PermissionError => 4 end.
+Definition fres_encode (r : fres) : list Z :=
+  match r with
+  | RCode c => [0; c] | RData d => 1 :: zlen d :: d | RInt n => [2; n]
+  | RBool b => [3; if b then 1 else 0] | RNone => [4] | RErr e => [5; oserr_code e]
+  end.
+Definition tree_encode (t : tree) : list Z :=
+  zlen t :: flat_map (fun e => zlen (fst e) :: fst e ++
+     match snd e with Dir => [1; 0] | File d => 0 :: zlen d :: d end) t.
+Fixpoint run_fs_from (t : tree) (ops : list (list Z)) : list (list Z) :=
+  match ops with
+  | [] => []
+  | o :: r =>
+      match fop_decode o with
+      | None => [[-1]]
+      | Some op => let '(t', res) := fstep t op in (fres_encode res ++ tree_encode t') :: run_fs_from t' r
+      end
+  end.
+Definition run_fs := run_fs_from [].
